@@ -284,7 +284,8 @@ class LayoutMetamorphic(BoundedCheck):
                 out.append(Violation(f'{what} changes neither names, types, lags nor leads', f'c14.{sig}:symbols', dict(jcase, variant=script),
                                      bk, sym_key(got), 'layout_invariant'))
             elif code_key(got) != bc:
-                out.append(Violation(f'{what} does not change the meaning of the generated code', f'c14.{sig}:code', dict(jcase, variant=script),
+                # (for the two recorded layouts the defect is the detached index, whether it shows in the lag / lead lengths or only in the code)
+                out.append(Violation(f'{what} does not change the meaning of the generated code', f'c14.{sig}:' + ('symbols' if sig == 'space-before-index' else 'code'), dict(jcase, variant=script),
                                      [s.code for s in base], [s.code for s in got], 'layout_invariant'))
         res.cover('layout')
         for _ in range(6):
